@@ -54,7 +54,10 @@ def run_tlc(spec_dir, module, cfg, env=None, workers=8, timeout=900, heap="6g", 
     if trace_mode:
         jopts += " -Dtlc2.tool.queue.IStateQueue=StateDeque"
     e["JAVA_TOOL_OPTIONS"] = jopts
-    cmd = ["timeout", str(timeout), "java", "-XX:+UseParallelGC", "-Xmx" + heap, "-cp", TLA_CP,
+    tmpd = os.path.join(WORK, "tlc", "tmp-" + tag)
+    shutil.rmtree(tmpd, ignore_errors=True)
+    os.makedirs(tmpd, exist_ok=True)
+    cmd = ["timeout", str(timeout), "java", "-XX:+UseParallelGC", "-Xmx" + heap, "-Djava.io.tmpdir=" + tmpd, "-cp", TLA_CP,
            "-DTLA-Library=" + TLA_LIB, "tlc2.TLC", "-workers", str(workers),
            "-metadir", metadir, "-cleanup", "-noGenerateSpecTE"]
     if coverage:
@@ -65,6 +68,7 @@ def run_tlc(spec_dir, module, cfg, env=None, workers=8, timeout=900, heap="6g", 
     wall = time.time() - t0
     out = p.stdout
     shutil.rmtree(metadir, ignore_errors=True)
+    shutil.rmtree(tmpd, ignore_errors=True)
     r = {"module": module, "cfg": cfg, "rc": p.returncode, "wall_s": round(wall, 2), "out": out,
          "generated": 0, "distinct": 0, "depth": 0, "actions": {}, "ok": p.returncode == 0}
     m = STATES_RE.findall(out)
@@ -80,7 +84,16 @@ def run_tlc(spec_dir, module, cfg, env=None, workers=8, timeout=900, heap="6g", 
         raise ToolError("TLC timed out after %ss on %s/%s" % (timeout, module, cfg))
     r["invariant_violated"] = re.findall(r"Error: Invariant (\w+) is violated", out)
     r["postcondition_false"] = "Postcondition" in out and "is false" in out
-    if not r["ok"] and not r["invariant_violated"] and not r["postcondition_false"]:
+    r["shape_mismatch_at"] = None
+    if trace_mode and not r["ok"] and "Attempted to" in out:
+        # The comparison of the machine's value with the logged value could not even be evaluated
+        # (e.g. a logged {"panic":1} against an expected sequence): the two are certainly different.
+        # Only accepted when the failing expression is the trace module's own comparison.
+        fr = re.search(r"0\. Line \d+, column \d+ to line \d+, column \d+ in (Trace_\w+)", out)
+        ls = re.findall(r"^/\\ l = (\d+)", out, re.M)
+        if fr and ls:
+            r["shape_mismatch_at"] = int(ls[-1]) + 1
+    if not r["ok"] and not r["invariant_violated"] and not r["postcondition_false"] and not r["shape_mismatch_at"]:
         raise ToolError("TLC failed (rc=%s) on %s/%s:\n%s" % (p.returncode, module, cfg, tail(out, 60)))
     return r
 
@@ -136,6 +149,22 @@ def build_harness():
 def kh_replay(files, timeout=1800):
     p = subprocess.run(["timeout", str(timeout), KH, "replay"] + list(files), stdout=subprocess.PIPE,
                        stderr=subprocess.PIPE, text=True)
+    if p.returncode < 0 or p.returncode in (132, 134, 135, 136, 139):
+        # the process died on a signal inside the code under test (e.g. SIGSEGV after an out-of-bounds
+        # slice was produced): find the record it died on and report it as an observation
+        e = dict(os.environ)
+        e["KH_PROGRESS"] = "1"
+        q = subprocess.run(["timeout", str(timeout), KH, "replay"] + list(files), stdout=subprocess.PIPE,
+                           stderr=subprocess.PIPE, text=True, env=e)
+        last = [l for l in q.stderr.splitlines() if l.startswith("KH-LINE ")]
+        if not last:
+            raise ToolError("kh replay died (rc=%s) and the record could not be located" % p.returncode)
+        rec = json.loads(last[-1][len("KH-LINE "):])
+        return {"lines": 0, "checks": 0, "n_mismatch": 1, "n_ref_mismatch": 0, "per_op": {}, "notes": {},
+                "ref_mismatches": [],
+                "mismatches": [{"variant": "crash:" + str(rec.get("op", rec.get("m"))), "rec": rec,
+                                "monitor": "the harness process died on a signal (rc=%s) while executing this record "
+                                           "on the real code" % p.returncode}]}
     if p.returncode != 0:
         raise ToolError("kh replay failed rc=%s: %s" % (p.returncode, tail(p.stderr, 30)))
     try:
@@ -272,9 +301,12 @@ class Run:
                 continue
             flat = " ".join(r["out"].split())
             m = re.search(r'"TRACE-REJECTED at event", (\d+),', flat)
-            if not m:
+            if r.get("shape_mismatch_at"):
+                at = r["shape_mismatch_at"]
+            elif not m:
                 raise ToolError("trace validation of %s failed without a rejection report:\n%s" % (path, tail(r["out"], 60)))
-            at = int(m.group(1))
+            else:
+                at = int(m.group(1))
             self.trace_events += at - 1
             rec = json.loads(lines[at - 1])
             self.add_violation({"kind": "trace", "module": record_module or module, "trace_module": trace_module,
